@@ -186,8 +186,8 @@ Theorem C14_sparse_oneway_answered : forall (S : sparse V) (I : nat),
     forall a b, a < I -> b < I -> mget v0 Y a b = gram_spec v0 vadd vmul [I] (den_sp v0 S) 0 a b.
 Proof. exact (sp_oneway_answered V v0 v1 vadd vmul vsub vopp Vring isz). Qed.
 
-(* wave 5 — what the property demands of holders of another element type B (open findings C14-F4 / C14-F5; the model is the REPAIRED
-   behaviour, fixes/C14-F4.diff / fixes/C14-F5.diff): the values are converted entry by entry BEFORE any product — sptensor.nvecs:
+(* wave 5 / 6 — holders of another element type B (findings C14-F4 / C14-F5 REPAIRED in /repo 6aef7c8 / 4b7dc0e: the model is the code as
+   it runs now, the theorems are claimed for the code): the values are converted entry by entry BEFORE any product — sptensor.nvecs:
    tnt.astype(float64) = the code path on sp_double S, accepted on the whole domain, solver input = Gram matrix in V of the converted
    entries; ttensor.nvecs: the Gram matrix of the Tucker tensor the converted core and factors denote in V *)
 Theorem C14_gram_sparse_held : forall (B : Type) (b0 : B) (dbl : B -> V), dbl b0 = v0 -> forall (S : sparse B) (n a b : nat),
